@@ -44,6 +44,8 @@ CHECKS = {
          "1..32 streams created from 1..8 threads with 0..50 messages queued before conversion, senders dropped or held, consumers on their own threads, some streams dropped early; oracle: each stream yields exactly its messages in order, ends only after real disconnection and after all messages, and no consumer stays parked while a message or the end is pending. Sampling, not proof.", "5/C20"),
  "C01": ("exploration", "deterministic simulation: complete enumeration of lengths +-16 around the first four packet boundaries x 6 send-buffer sizes, plus seeded recursive serde values and payload sizes under seeded SO_SNDBUF, ENOBUFS refusals, receiver modes and schedules; byte-identity oracle, truncation observed at the seam",
          "All lengths within +-16 of each k x packet-capacity boundary (k=1..4) for six effective send-buffer sizes (one not 8-aligned) on bytes and typed channels are enumerated; seeded nested values (floats by bit pattern) and payloads up to 4 MiB (quick) / 64 MiB (thorough) are sent under varied buffer sizes, injected ENOBUFS (re-splitting) and receiver modes; oracle: re-serialised received value / payload is byte-identical, no packet exceeds the receiver's buffer. The value-shape dimension is ordinary seeded generation; the simulator contributes buffer-size configuration x split points x interleaving x blocking.", "5/C01"),
+ "C11": ("exploration", "deterministic simulation: seeded API histories incl. failing operations (EMFILE injected at the seam, dead names, closed receivers, undecoded messages), repeated rounds; descriptor ledger + /proc/self/fd ground truth, mapping count, temp dir, FD_CLOEXEC audit after every operation, exec-child inheritance fault",
+         "Seeded sequences of <=400 public-API operations over channels, shared memory, receiver sets, one-shot servers and routers, with EMFILE/ENFILE injected into descriptor-creating calls, run for several rounds in one process; after each round every handle is dropped in seeded order and the descriptor table (kernel view), shared mappings and temp dir must equal the baseline; no close may fail; after every operation every descriptor the library created or received must be close-on-exec. Sampling of histories, not proof.", "5/C11"),
 }
 PENDING = "check not built yet (work in progress in this session; will be claimed once its simulation scenario exists)"
 
